@@ -48,9 +48,18 @@ func isRefLike(t types.Type) bool {
 // second following reference-typed parameter are receiver-side; the others
 // argument-side.
 func NewRelation(fn *ssa.Function) *Relation {
+	return NewRelationOpt(fn, nil, nil)
+}
+
+// NewRelationOpt: neutral reports parameters that belong to neither side
+// (lookup tables); resultFrom restricts call result provenance.
+func NewRelationOpt(fn *ssa.Function, neutral func(*ssa.Parameter) bool, resultFrom func(c *ssa.Call) []ssa.Value) *Relation {
 	rel := &Relation{Fn: fn}
 	var refs []ssa.Value
 	for _, p := range fn.Params {
+		if neutral != nil && neutral(p) {
+			continue
+		}
 		if isRefLike(p.Type()) {
 			refs = append(refs, p)
 		}
@@ -64,12 +73,14 @@ func NewRelation(fn *ssa.Function) *Relation {
 	}
 	rel.tr = NewTaint(0, nil)
 	rel.tr.NoKeyFlow = true
+	rel.tr.ResultFrom = resultFrom
 	for _, v := range rel.RSet {
 		rel.tr.Add(v)
 	}
 	rel.tr.Run()
 	rel.to = NewTaint(0, nil)
 	rel.to.NoKeyFlow = true
+	rel.to.ResultFrom = resultFrom
 	for _, v := range rel.OSet {
 		rel.to.Add(v)
 	}
